@@ -54,6 +54,18 @@ type spyFactory struct{ s *spy }
 
 func (f spyFactory) NewInterceptor(string) (interceptor.Interceptor, error) { return f.s, nil }
 
+// nestedFactory builds a Chain of spies that becomes one member of the outer chain (an application grouping its own interceptors).
+type nestedFactory struct{ inner []*spy }
+
+func (f nestedFactory) NewInterceptor(string) (interceptor.Interceptor, error) {
+	ics := make([]interceptor.Interceptor, len(f.inner))
+	for i, s := range f.inner {
+		ics[i] = s
+	}
+
+	return interceptor.NewChain(ics), nil
+}
+
 type failingSource struct {
 	kit.ByteSource
 	mu   sync.Mutex
@@ -147,6 +159,7 @@ func TestChainTransparency(t *testing.T) {
 		var names []string
 		reg := &interceptor.Registry{}
 		var spies []*spy
+		var nestInto *[]*spy
 		addSpy := func() {
 			s := &spy{unbindLocal: map[uint32]int{}, unbindRemote: map[uint32]int{}}
 			// Close errors of different members may be related (the same sentinel, or one wrapping another's): each must still be preserved
@@ -159,13 +172,32 @@ func TestChainTransparency(t *testing.T) {
 				s.closeErr = fmt.Errorf("spy %d: %w", len(spies), errSharedClose)
 			}
 			spies = append(spies, s)
+			if nestInto != nil {
+				*nestInto = append(*nestInto, s)
+
+				return
+			}
 			reg.Add(spyFactory{s})
 			names = append(names, "spy")
 		}
+		// a chain as a member of the chain: its members are members like any other (every lifecycle call once, every Close error kept)
+		addNested := func() {
+			var inner []*spy
+			nestInto = &inner
+			for i, n := 0, rapid.IntRange(1, 4).Draw(t, "nestedSpies"); i < n; i++ {
+				addSpy()
+			}
+			nestInto = nil
+			reg.Add(nestedFactory{inner})
+			names = append(names, fmt.Sprintf("chain-of-%d-spies", len(inner)))
+		}
 		hasHeaderExt, hasResponder := false, false
 		for i := 0; i < nMembers; i++ {
-			if rapid.IntRange(0, 3).Draw(t, "spyHere") == 0 {
+			switch rapid.IntRange(0, 7).Draw(t, "spyHere") {
+			case 0, 1:
 				addSpy()
+			case 2:
+				addNested()
 			}
 			n := rapid.SampledFrom(kit.PassThroughNames).Draw(t, "member")
 			names = append(names, n)
